@@ -266,6 +266,33 @@ func (r *bRun) checkBox(b *box, label string, aw, ah, ox, oy int, known *error) 
 		}
 	}
 	horiz := b.orient == 0
+	if b.wrap != nil && b.wrap.view != nil {
+		// What a nested box asks of its parent is what its own children ask of
+		// it: the sum of their preferred extents along its axis and the largest
+		// across (all changes were announced, and the box has been drawn).
+		mw, mh := 0, 0
+		for _, e := range b.kids {
+			if e.rec == nil {
+				mw, mh = -1, -1
+				break
+			}
+			if horiz {
+				mw += e.rec.pw
+				if e.rec.ph > mh {
+					mh = e.rec.ph
+				}
+			} else {
+				mh += e.rec.ph
+				if e.rec.pw > mw {
+					mw = e.rec.pw
+				}
+			}
+		}
+		if gw, gh := b.bl.Size(); mw >= 0 && (gw != mw || gh != mh) {
+			return errf("%s: the nested box reports a preferred size of %dx%d to its parent; its %d children (orientation %d) ask for %dx%d in total (sum along the axis, maximum across)", label, gw, gh, len(b.kids), b.orient, mw, mh)
+		}
+		r.class("nested-preferred-size-checked")
+	}
 	avail, crossAvail := aw, ah
 	if !horiz {
 		avail, crossAvail = ah, aw
